@@ -83,7 +83,8 @@ vars == <<fam, g, phase>>
 (* one-leaf mutants of the unshared copies as further values.                                 *)
 LeafOrder == <<"i1", "i1b", "i2", "i0", "f1", "f0", "fn0", "nan", "big", "big2", "rat", "rat2", "brat", "brat2",
                "cx", "cx2", "sa", "sa2", "sb", "se", "ya", "ya2", "yb", "ca", "ca2", "cb", "t", "f", "nil", "nil2",
-               "bv", "bv2", "bw", "fcar", "fcar2", "fcdr", "vd">>
+               "bv", "bv2", "bw", "fcar", "fcar2", "fcdr", "vd",
+               "rg3", "rg4", "rg4m", "rg5", "rg11", "rg12", "rg12m", "rg13", "rg27", "rg28", "rg29">>
 AllLeafIds == {LeafOrder[i] : i \in 1..Len(LeafOrder)}
 Fams == [
   list   |-> [n |-> 3, leafs |-> {"i1", "nil"}, kinds |-> {"cons", "list1"}, mut |-> TRUE],
@@ -101,12 +102,17 @@ Fams == [
   sim    |-> [n |-> 5, leafs |-> {"i1", "i2", "nil", "sa"},
               kinds |-> {"cons", "list1", "list2", "ivec1", "ivec2", "mvec1", "mvec2", "box", "hash1", "hins",
                          "hset1", "hset2", "sP", "sQ", "lf"}, mut |-> TRUE],
+  \* lists of different length that PHYSICALLY share a long tail (the first node is a long list, every
+  \* later node conses a symbol onto an earlier node): (a . T), (b . T), (a b . T), (a a . T) ... with T
+  \* at and around the chunk sizes of the list representation; node choices: TailChoices below
+  tails  |-> [n |-> 4, leafs |-> {"ya", "yb"}, kinds |-> {"lf", "cons"}, mut |-> TRUE],
   leaf   |-> [n |-> 0, leafs |-> AllLeafIds,
               kinds |-> {"none", "list1", "cons", "list2", "ivec1", "mvec2", "box", "hash1", "hins", "hset1", "sP"},
               mut |-> FALSE] ]
 FAM     == fam
-N       == Fams[fam].n + (IF fam = "leaf" THEN 0 ELSE NBUMP)
+N       == Fams[fam].n + (IF fam \in {"leaf", "tails"} THEN 0 ELSE NBUMP)
 LEAFS   == Fams[fam].leafs
+TailLeafs == {"rg3", "rg4", "rg4m", "rg5", "rg11", "rg12", "rg12m", "rg13", "rg27", "rg28", "rg29"}
 KINDS   == Fams[fam].kinds
 MUTANTS == Fams[fam].mut
 SPARSE  == fam = "sim"
@@ -153,7 +159,22 @@ LeafTab == {
   [id |-> "fcar", src |-> "car",                                      den |-> "p:car", cls |-> "proc"],
   [id |-> "fcar2",src |-> "(opaque car)",                             den |-> "p:car", cls |-> "proc"],
   [id |-> "fcdr", src |-> "cdr",                                      den |-> "p:cdr", cls |-> "proc"],
-  [id |-> "vd",   src |-> "void",                                     den |-> "void",  cls |-> "void"] }
+  [id |-> "vd",   src |-> "void",                                     den |-> "void",  cls |-> "void"],
+  \* long proper lists of exact integers (family "tails"): lengths at and around the sizes at which a
+  \* chunked list representation starts a new chunk (4, 12 = 4 + 8, 28 = 4 + 8 + 16), built by `range`
+  \* and (the "m" ids, same value) by `map`.  They are leaves here - their elements are integers and
+  \* no other leaf of the family is one, so no cons-built value can coincide with one of them.
+  [id |-> "rg3",  src |-> "(range 0 3)",                              den |-> "l:rg3",  cls |-> "ilist"],
+  [id |-> "rg4",  src |-> "(range 0 4)",                              den |-> "l:rg4",  cls |-> "ilist"],
+  [id |-> "rg4m", src |-> "(map (lambda (x) (- x 1)) (range 1 5))",   den |-> "l:rg4",  cls |-> "ilist"],
+  [id |-> "rg5",  src |-> "(range 0 5)",                              den |-> "l:rg5",  cls |-> "ilist"],
+  [id |-> "rg11", src |-> "(range 0 11)",                             den |-> "l:rg11", cls |-> "ilist"],
+  [id |-> "rg12", src |-> "(range 0 12)",                             den |-> "l:rg12", cls |-> "ilist"],
+  [id |-> "rg12m",src |-> "(map (lambda (x) (- x 1)) (range 1 13))",  den |-> "l:rg12", cls |-> "ilist"],
+  [id |-> "rg13", src |-> "(range 0 13)",                             den |-> "l:rg13", cls |-> "ilist"],
+  [id |-> "rg27", src |-> "(range 0 27)",                             den |-> "l:rg27", cls |-> "ilist"],
+  [id |-> "rg28", src |-> "(range 0 28)",                             den |-> "l:rg28", cls |-> "ilist"],
+  [id |-> "rg29", src |-> "(range 0 29)",                             den |-> "l:rg29", cls |-> "ilist"] }
 
 LeafIds == {r.id : r \in LeafTab}
 LF == [i \in LeafIds |-> CHOOSE r \in LeafTab : r.id = i]
@@ -196,7 +217,11 @@ Ctor(k) == CASE k = "cons" -> "cons"
 Slots(h) == {LeafSlot(l) : l \in LEAFS} \cup {RefSlot(j) : j \in 1..Len(h)}
 
 \* every node that may be appended to heap h
+TailChoices(h) ==
+  IF h = << >> THEN {[k |-> "lf", c |-> <<LeafSlot(l)>>] : l \in TailLeafs}
+  ELSE {[k |-> "cons", c |-> <<LeafSlot(x), RefSlot(j)>>] : x \in LEAFS, j \in 1..Len(h)}
 NodeChoices(h) ==
+  IF fam = "tails" THEN TailChoices(h) ELSE
   UNION { CASE k = "lf"   -> {[k |-> k, c |-> <<LeafSlot(l)>>] : l \in LEAFS}
             [] k = "hins" -> {[k |-> k, c |-> <<RefSlot(j), s2, s3>>] :
                                 j \in {j \in 1..Len(h) : h[j].k \in MapKinds}, s2 \in Slots(h), s3 \in Slots(h)}
